@@ -3,6 +3,7 @@ import Robust.Irc.Proofs.H3b
 Services-link handlers with loops: MODE, SVSMODE, JOIN, PART.
 -/
 namespace Robust.Irc
+open Srv
 open Robust AMap
 
 /-! ### MODE -/
@@ -249,7 +250,8 @@ theorem serverJoinOne_mid {c0 c c' : Ctx} {sid : Id} {m : IrcMsg} {chn : String}
   obtain ⟨pn, _, hr⟩ := Res.bind_eq_ok.1 hr
   split at hr
   · cases hr; exact h.sendSvc _
-  · dsimp only at hr
+  · rename_i hvc
+    dsimp only at hr
     split at hr
     · cases hr; exact h.sendSvc _
     · rename_i tid hidx
@@ -258,7 +260,7 @@ theorem serverJoinOne_mid {c0 c c' : Ctx} {sid : Id} {m : IrcMsg} {chn : String}
       obtain ⟨rc, _, hr⟩ := Res.bind_eq_ok.1 hr
       cases hr
       simp only [getChan_eq] at h1
-      refine Mid.emit (h.addMember hidx ?_ h1) _ _
+      refine Mid.emit (h.addMember hidx ?_ (getD_chan_valid hvc) h1) _ _
       cases hg : AMap.get c.st.channels (chanToLower chn) with
       | none => exact Or.inr ⟨rfl, rfl, rfl⟩
       | some ch => exact Or.inl rfl
@@ -271,7 +273,8 @@ theorem serverJoinOne_safe {c0 c : Ctx} {sid : Id} {m : IrcMsg} {chn : String} (
   simp only [hpn, hsp, Res.ok_bind, getChan_eq]
   split
   · exact NoPanic.pure _
-  · split
+  · rename_i hvc
+    split
     · exact NoPanic.pure _
     · rename_i tid hidx
       obtain ⟨t, ht⟩ := h.hinv.toWInvCore.indexed_stored hidx
@@ -283,7 +286,7 @@ theorem serverJoinOne_safe {c0 c : Ctx} {sid : Id} {m : IrcMsg} {chn : String} (
         cases hg : AMap.get c.st.channels (chanToLower chn) with
         | none => exact Or.inr ⟨rfl, rfl, rfl⟩
         | some ch => exact Or.inl rfl
-      have hm1 := h.addMember hidx hch h1
+      have hm1 := h.addMember hidx hch (getD_chan_valid hvc) h1
       obtain ⟨hl, _, _⟩ := addMember_lookups h1
       obtain ⟨rc, hrc⟩ := rcChannel_ok hm1.hinv.toWInvCore hl
       rw [hrc]
